@@ -131,7 +131,7 @@ func ruleSizeCheck(c *Ctx) {
 			if call, ok := v.(*ssa.Call); ok && calleeIs(&call.Call, modPath, "Entry", "Size") {
 				return "SIZE"
 			}
-			if isFieldLoad(v, "Options", "SegmentSize") {
+			if isFieldLoad(v, "Options", "SegmentSize") || paramBoundToField(c, v, "Options", "SegmentSize") {
 				return "SEG"
 			}
 			return pathOf(v)
@@ -349,4 +349,36 @@ func isRecordWrite(c *Ctx, call *ssa.Call) bool {
 		}
 	})
 	return hit
+}
+
+// paramBoundToField: v is a parameter of an unexported module function and every call site passes a load
+// of owner.field (directly or through another such parameter).
+func paramBoundToField(c *Ctx, v ssa.Value, owner, field string) bool {
+	return paramBoundDepth(c, v, owner, field, 0)
+}
+
+func paramBoundDepth(c *Ctx, v ssa.Value, owner, field string, depth int) bool {
+	p, ok := resolve1(stripConv(v)).(*ssa.Parameter)
+	if !ok || depth > 2 {
+		return false
+	}
+	f := p.Parent()
+	if f.Object() != nil && f.Object().Exported() {
+		return false
+	}
+	idx := paramIndex(f, p)
+	sites := c.P.CallersOf(f)
+	if len(sites) == 0 {
+		return false
+	}
+	for _, s := range sites {
+		if s.Common().IsInvoke() || idx >= len(s.Common().Args) {
+			return false
+		}
+		a := s.Common().Args[idx]
+		if !isFieldLoad(a, owner, field) && !paramBoundDepth(c, a, owner, field, depth+1) {
+			return false
+		}
+	}
+	return true
 }
